@@ -2,6 +2,7 @@ package main
 
 import (
 	"fmt"
+	"go/types"
 	"strings"
 
 	"golang.org/x/tools/go/ssa"
@@ -174,6 +175,40 @@ func (ex *Exec) loopName(fr *Frame, lp *Loop) string {
 func (ex *Exec) loopEnter(st *State, frID int, lp *Loop, from *ssa.BasicBlock, k Cont) {
 	fr := st.Frames[frID]
 	spec := ex.loopSpec(fr, lp)
+	// entry(e) in an invariant: e is evaluated now, in the state that reaches the loop, and carried
+	// in the state under a name (so that joins rename it like any other live value)
+	if spec != nil {
+		for _, c := range spec.Invs {
+			walkExpr(c.E, func(n Expr) {
+				call, ok := n.(*ECall)
+				if !ok || len(call.Args) != 1 {
+					return
+				}
+				if id, ok := call.Fn.(*EIdent); !ok || id.Name != "entry" {
+					return
+				}
+				env := ex.loopEnv(st, fr, lp)
+				v, err := env.eval(call.Args[0])
+				if err != nil {
+					ex.bindingError(c, err)
+					return
+				}
+				t, ok := v.V.(Term)
+				if !ok {
+					ex.bindingError(c, fmt.Errorf("entry(): only scalar expressions are supported"))
+					return
+				}
+				if st.Aux == nil {
+					st.Aux = map[string]Term{}
+				}
+				st.Aux[entryKey(lp, call)] = t
+				if ex.auxTypes == nil {
+					ex.auxTypes = map[string]types.Type{}
+				}
+				ex.auxTypes[entryKey(lp, call)] = v.T
+			})
+		}
+	}
 	// 1. invariants hold on entry
 	if spec != nil && ex.disc == nil {
 		for _, c := range spec.Invs {
@@ -431,4 +466,8 @@ func (ex *Exec) checkBranches(st *State, fr *Frame, lp *Loop) {
 			ex.obligeClause(st, "branch", label+":"+c.Label, c, g)
 		}
 	}
+}
+
+func entryKey(lp *Loop, call *ECall) string {
+	return fmt.Sprintf("entry%d.%s", lp.Ordinal, exprKey(call.Args[0]))
 }
